@@ -83,6 +83,23 @@ def reachedAnywhere (segs : List SegX) (level : Rat) : Option String :=
 
 def f32OfTok (s : String) : Option F32 := f32Tok s
 
+/-- the exact root oracle handed to the model `Sb.Stats`: the leftmost solution of p = v in [0,1] (2^-40 accurate) -/
+def exactTouch : Touch := fun p v =>
+  let q := Sturm.addP p [-v]
+  if Sturm.isZero q then some 0
+  else if Sturm.eval q 0 = 0 then some 0
+  else (Sturm.rootsIn q 0 1 (1 / 1099511627776)).head?
+
+/-- does the implementation's instant agree with the model's (run with the exact oracle), up to 2% of the duration
+of the segment the model's instant lies in?  Reported as a tag; the verdict is the acceptance rule. -/
+def agreesWithModel (segs : List SegX) (impl : Option Rat) (model : Option Rat) : String :=
+  match impl, model with
+  | none, none => "model-agrees"
+  | some e, some m =>
+    let d : Rat := ((segs.find? (fun s => s.startSec ≤ m ∧ m ≤ s.endSec)).map (fun s => (s.durMs : Rat) / 1000)).getD 0
+    if absR (e - m) ≤ d / 50 + timeSlack m then "model-agrees" else "model-differs-within-altitude-tolerance"
+  | _, _ => "model-differs-within-altitude-tolerance"
+
 def F32.subF (a b : Rat) : Rat := roundF32 (a - b)
 
 /-- K<h>,<v>,<a> -/
@@ -115,11 +132,12 @@ def checkTakeoff (segs : List SegX) (z0 : Rat) (q ans : String) : Except String 
               else
                 match reachedBefore segs e target with
                 | some m => .error s!"takeoff: {m}"
-                | none => .ok [match adj with | .fin _ => "takeoff:finite" | _ => "takeoff:reached-but-climb-infinite"]
+                | none => .ok [match adj with | .fin _ => "takeoff:finite" | _ => "takeoff:reached-but-climb-infinite",
+                               "takeoff:" ++ agreesWithModel segs (some e) (earliestAbove exactTouch (segs.map (·.zs)) target)]
             | .pinf =>
               match reachedAnywhere segs target with
               | some m => .error s!"takeoff: {m}"
-              | none => .ok ["takeoff:never-reached"]
+              | none => .ok ["takeoff:never-reached", "takeoff:" ++ agreesWithModel segs none (earliestAbove exactTouch (segs.map (·.zs)) target)]
             | _ => .error s!"takeoff: crossing time bits {earlS}"
         | _ => .error "takeoff: unreachable"
     | _, _, _, _, _ => .error s!"takeoff: unparsable {ans}"
@@ -167,10 +185,11 @@ def checkLanding (segs : List SegX) (q ans : String) : Except String (List Strin
               let level := endAlt + p
               let runX := segs.drop (segs.length - run.length)
               let inside : Bool := prop ≥ startR ∧ yieldsAltitude runX prop level (2 * noise)
+              let mtag := "landing:" ++ agreesWithModel segs (some prop) (some (proposeLanding exactTouch zs pd thr))
               if descent ≤ p - noise then
-                if prop = startR then .ok [s!"landing:short-run:{run.length}"] else .error s!"landing: the final descent {ratToString descent} does not exceed the preferred {ratToString p}: expected the start of the run {ratToString startR}, got {ratToString prop}"
+                if prop = startR then .ok [s!"landing:short-run:{run.length}", mtag] else .error s!"landing: the final descent {ratToString descent} does not exceed the preferred {ratToString p}: expected the start of the run {ratToString startR}, got {ratToString prop}"
               else if descent ≥ p + noise then
-                if inside then .ok [s!"landing:inside-run:{run.length}"]
+                if inside then .ok [s!"landing:inside-run:{run.length}", mtag]
                 else .error s!"landing: at the reported {ratToString prop} s the remaining descent is not {ratToString p} (level {ratToString level}, run starts {ratToString startR})"
               else
                 if prop = startR ∨ inside then .ok ["landing:boundary"] else .error s!"landing: boundary case, got {ratToString prop}"
